@@ -7,7 +7,9 @@ case args: workers=<N> peers0=<n|f> ncfg=<m> c0=<cfg> … c<m-1>=<cfg>
   cfg  = entry;entry;…          entry = <enc env>|L<def>   or   <enc env>|R<def>^<def>^…
   def  = <kind>!<rate>!<useClusterSize 0/1>!<tuning>!<fields>     kind = dyn ema tot emt win det
   fields = *  (none)  or  <enc f>~<enc f>~…
-ops: get <w> <enc env> | peers <n> | peersfail | setcfg <j> | clear | wreload <w>
+ops: get <w> <enc env> | peers <n> | peersfail | setcfg <j> | clear | wreload <w> | cget <enc env> <k>
+     cget = k fresh workers at once; the model takes one linearisation: for i < k: wreload (100+i); get (100+i) env
+     obs of cget: r=<slot ids>/<slot ids>/… (one list per worker) p=… c=… g=…
 obs: [s=<ids> k=<keys>] p=<peerCount> c=<id/cfg,…> g=<id:goal,…>       (see harness/cmd/samplerreg/main.go)
 -/
 open Refinery Refinery.Model.SamplerRegistry Oracle
@@ -147,6 +149,22 @@ def oStep (o : OSt) (op : List String) (_ : List (List String)) : OSt × Option 
         | some ent => ({ o with st := st' }, some (slotStr st' ent.slots ++ " " ++ tailStr st'))
         | none => (o, some "bad-op")
     | none => (o, some "bad-op")
+  | ["cget", e, k] =>
+    match k.toNat? with
+    | some k =>
+      if k < 1 || k > 16 then (o, some "bad-op") else
+      let env := dec e
+      match lookupCfg o.st.cfg env with
+      | none => (o, some "exit")
+      | some _ =>
+        let st' := (List.range k).foldl (fun st i =>
+          step o.cfgs (step o.cfgs st (.wreload (100 + i))) (.get (100 + i) env)) o.st
+        let lists := (List.range k).map fun i =>
+          match AList.get st'.caches (100 + i, env) with
+          | some ent => joinC (ent.slots.map fun sl => match sl.id with | some id => toString id | none => "-")
+          | none => "nil"
+        ({ o with st := st' }, some ("r=" ++ "/".intercalate lists ++ " " ++ tailStr st'))
+    | none => (o, some "bad-op")
   | ["peers", n] => match n.toNat? with | some n => go (.peers n) | none => (o, some "bad-op")
   | ["peersfail"] => go .peersFail
   | ["setcfg", j] => match j.toNat? with
@@ -280,6 +298,26 @@ def mStep (m : MSt) (op : List String) (_ : List (List String)) (obs : Option St
           let m' := { m with cached := (w, env) :: m.cached, seen := m.seen ++ new }
           (m', f12 ++ c13Check m' goals)
     | _, _ => (m, [])
+  | ["cget", e, _] =>
+    match kv toks "r" with
+    | some r =>
+      let env := dec e
+      let lists := r.splitOn "/"
+      let first := lists.headD ""
+      let f1 := if lists.all (· == first) then [] else
+        [mk "C12" "C12:workers-not-sharing:concurrent-creation"
+          s!"workers that built the sampler for {e} at the same moment hold different instances: {r}"]
+      -- the first worker's sampler takes part in the other checks like a sequential build
+      let defs := slotsOf m.cfg env
+      let down := match lookupCfg m.cfg env with | some (.rules _) => true | _ => false
+      let ids := parseIds first defs.length
+      if defs.length != ids.length then (m, f1) else
+        let new : List MSlot := (defs.zip ids).filterMap fun ((p, d), i) =>
+          i.map fun id => { pfx := p, d, id, env, down, worker := 100 }
+        let f12 := c12Check m new
+        let m' := { m with seen := m.seen ++ new }
+        (m', f1 ++ f12 ++ c13Check m' goals)
+    | none => (m, [])
   | ["peers", n] =>
     let n := n.toNat?.getD 0
     let m' := if n > 0 then { m with peers := n } else m
